@@ -13,6 +13,8 @@ package main
 // server (thorough), C = production wsChan over a real centrifuge node with a real centrifuge-go client
 // subscribed to "headers" (thorough).  beh: ok | err | slow (blocks on a gate that the harness opens only
 // after the whole history has been ingested).
+// c<k>: the COMMIT of the k-th write call fails (SQLite commit hook below the SQL layer: the statement ran, the
+// transaction is rolled back, the process goes on).
 // 8th field of a submission = injected store failure for that Add: b<k> the k-th write call (UpdateState /
 // AddHeaderToDatabase, 0-based) fails without happening, a<k> it happens and then reports an error.
 // A token L<first id>,<prev>,<count>,<bits> stands for a run of <count> headers ingested back to back: ids
@@ -63,10 +65,12 @@ var errC11Injected = errors.New("injected storage fault")
 
 type c11Faulty struct {
 	repository.Headers
-	mode byte // 0 = none, 'b' = fail before, 'a' = fail after
-	k    int
-	n    int // write calls seen in the current Add
-	hits int
+	mode       byte  // 0 = none, 'b' = fail before, 'a' = fail after, 'c' = the COMMIT of that write fails (SQLite commit hook)
+	failCommit int32 // 1 while the next COMMIT on a hooked connection has to fail
+	commitHits int
+	k          int
+	n          int // write calls seen in the current Add
+	hits       int
 }
 
 func (f *c11Faulty) arm(mode byte, k int) { f.mode, f.k, f.n = mode, k, 0 }
@@ -78,12 +82,29 @@ func (f *c11Faulty) write(do func() error) error {
 		f.hits++
 		return errC11Injected
 	}
+	if f.mode == 'c' && i == f.k {
+		// below the repository: the statement runs, its COMMIT is turned into a ROLLBACK once (an UpdateState of
+		// no hashes opens no transaction: nothing fails then)
+		atomic.StoreInt32(&f.failCommit, 1)
+		err := do()
+		atomic.StoreInt32(&f.failCommit, 0)
+		return err
+	}
 	err := do()
 	if f.mode == 'a' && i == f.k && err == nil {
 		f.hits++
 		return errC11Injected
 	}
 	return err
+}
+
+// commitHook is registered on every pooled SQLite connection.
+func (f *c11Faulty) commitHook() int {
+	if atomic.CompareAndSwapInt32(&f.failCommit, 1, 0) {
+		f.commitHits++
+		return 1
+	}
+	return 0
 }
 
 func (f *c11Faulty) AddHeaderToDatabase(h domains.BlockHeader) error {
@@ -104,15 +125,16 @@ type c11Spec struct {
 }
 
 type c11Rec struct {
-	spec   c11Spec
-	mat    *Mat
-	gate   chan struct{}
-	hang   chan struct{} // opened only when the case is over (cleanup); what arrives then is discarded
-	parked *int32
-	mu     sync.Mutex
-	got    []string
-	dead   bool
-	closer func()
+	spec      c11Spec
+	mat       *Mat
+	gate      chan struct{}
+	hang      chan struct{} // opened only when the case is over (cleanup); what arrives then is discarded
+	parked    *int32
+	mu        sync.Mutex
+	got       []string
+	dead      bool
+	firstHook bool // the first webhook of the case: registers the webhooks service on the Notifier
+	closer    func()
 }
 
 func (r *c11Rec) hold() {
@@ -338,7 +360,7 @@ func c11Parse(line string) (*c11Case, error) {
 		p := strings.Split(tok, ",")
 		if len(p) == 8 {
 			fs := p[7]
-			if len(fs) < 2 || (fs[0] != 'a' && fs[0] != 'b') {
+			if len(fs) < 2 || (fs[0] != 'a' && fs[0] != 'b' && fs[0] != 'c') {
 				return nil, fmt.Errorf("bad fault %q", fs)
 			}
 			v, err := strconv.Atoi(fs[1:])
@@ -507,15 +529,19 @@ func (e *c11Env) run(k *c11Case) (string, error) {
 	hang := make(chan struct{})
 	var parked int32
 	recs := make([]*c11Rec, 0, len(k.Chans))
-	noisy := false
+	noisy, haveHook := false, false
 	var paced *c11Rec
 	for _, sp := range k.Chans {
 		r := &c11Rec{spec: sp, mat: m, gate: gate, hang: hang, parked: &parked}
 		switch sp.Kind {
 		case "R", "W":
 			c11Attach(e, nt, r)
-		case "H", "C":
+		case "H", "N", "C":
 			noisy = true
+			if sp.Kind != "C" && !haveHook {
+				haveHook = true
+				r.firstHook = true
+			}
 			if err := c11AddRealChannel(e, nt, r); err != nil {
 				return "", err
 			}
@@ -589,6 +615,9 @@ func (e *c11Env) run(k *c11Case) (string, error) {
 			return fmt.Errorf("restart: %w", err)
 		}
 		e.s = ns
+		if err := e.s.HookCommits(4, e.faulty.commitHook); err != nil {
+			return err
+		}
 		nt2 := notification.NewNotifier()
 		for _, r := range recs {
 			c11Attach(e, nt2, r)
@@ -784,8 +813,11 @@ func c11AddFaults(r *rand.Rand, h *History, p float64) (*History, map[int]c11Fau
 		out.Subs = append(out.Subs, s)
 		if r.Float64() < p {
 			mode := byte('b')
-			if r.Intn(4) == 0 {
+			switch r.Intn(8) {
+			case 0, 1:
 				mode = 'a'
+			case 2, 3, 4:
+				mode = 'c'
 			}
 			kk := 0
 			switch x := r.Intn(10); {
@@ -869,6 +901,9 @@ func runC11x(c *Ctx) error {
 	if err != nil {
 		return err
 	}
+	if err := s.HookCommits(4, faulty.commitHook); err != nil {
+		return err
+	}
 	// an Add that has not returned after this long is reported as ADD-BLOCKED@i (one Add takes well under a millisecond)
 	env := &c11Env{c: c, s: s, faulty: faulty, watchdog: 5 * time.Second}
 	if c.Only != "" {
@@ -903,6 +938,7 @@ func runC11x(c *Ctx) error {
 	}
 	finish := func() {
 		c.Meta("c11_fault_hits", strconv.Itoa(faulty.hits))
+		c.Meta("c11_commit_fault_hits", strconv.Itoa(faulty.commitHits))
 		c.Meta("c11_deliveries_held_while_ingestion_completed", strconv.Itoa(env.held))
 		c.Meta("c11_quiesce_timeouts", strconv.Itoa(env.qTimeout))
 		c.Meta("c11_baseline_bumps", strconv.Itoa(env.baseBumps))
@@ -939,7 +975,7 @@ func runC11x(c *Ctx) error {
 		}
 		// every single fault position / kind, followed by a retry of the failed submission and a duplicate
 		for i := range h.Subs {
-			for _, f := range []c11Fault{{'b', 0}, {'a', 0}, {'b', 1}, {'b', 2}, {'a', 2}} {
+			for _, f := range []c11Fault{{'b', 0}, {'a', 0}, {'b', 1}, {'b', 2}, {'a', 2}, {'c', 0}, {'c', 1}, {'c', 2}} {
 				h2 := &History{Forbidden: h.Forbidden}
 				h2.Subs = append(h2.Subs, h.Subs...)
 				h2.Subs = append(h2.Subs, h.Subs[i], h.Subs[i])
@@ -992,6 +1028,13 @@ func runC11x(c *Ctx) error {
 		"c=H:ok,W:ok,R:ok/n=9004|g=1,486604799,1,1,1231006505,2083236893;f=;L2,1,40,545259519",
 		"c=H:ok,R:ok/n=9005|g=1,486604799,1,1,1231006505,2083236893;f=;L2,1,40,545259519",
 		"c=W:ok,H:ok/n=9006|g=1,486604799,1,1,1231006505,2083236893;f=;L2,1,25,545259519;X;L27,26,25,545259519",
+		// a target that answers 500 with an error page, more often than a connection pool per host is likely to be
+		// deep: the webhook stays registered (max_tries is huge here) and must be called for every stored header
+		"c=H:err,W:ok/n=9010|g=1,486604799,1,1,1231006505,2083236893;f=;L2,1,10,545259519",
+		// a webhook registered WITHOUT authorisation: alone, before / after a token-protected one, across a restart
+		"c=N:ok,W:ok/n=9007|g=1,486604799,1,1,1231006505,2083236893;f=;L2,1,4,545259519",
+		"c=N:ok,H:ok,W:ok/n=9008|g=1,486604799,1,1,1231006505,2083236893;f=;L2,1,4,545259519",
+		"c=H:ok,N:ok,R:ok/n=9009|g=1,486604799,1,1,1231006505,2083236893;f=;L2,1,3,545259519;X;L5,4,3,545259519",
 	} {
 		k, err := c11Parse(l)
 		if err != nil {
